@@ -32,7 +32,10 @@ func init() {
 		Explanation: "Decides the routing table that separates per-worktree from shared files: (commondir-routing) in RepositoryFilesystem.mapToRepositoryFsByPath the first-component set routed to the common directory contains objects, refs, " +
 			"packed-refs, config, shallow, worktrees, logs, info, hooks and does not contain index, HEAD or config.worktree; the per-worktree exceptions (logs/HEAD, refs/bisect, refs/rewritten, refs/worktree) are tested before the general switch and go to the " +
 			"worktree's own directory; (routes-by-path) every path-taking billy.Filesystem method of RepositoryFilesystem is declared on it and routes through that function using the path that is being created or opened. " +
-			"Not decided: that git recognises the linked worktree; isolation over operation sequences.",
+			"(publish-within-one-directory) for every Rename in package dotgit the two files are traced back through locals, parameters (via their callers), struct fields (via their initialisers) and helper results to the TempFile/Open/OpenFile/Create " +
+			"call that produced them, and both fall in the same routing class (first-component table, base-name prefixes sent to the common directory): RepositoryFilesystem.Rename runs inside one filesystem, so a private temporary file renamed over a shared " +
+			"file publishes in the wrong directory; TempFile routes by directory and prefix; (linked-worktree-not-downgraded) in x/plumbing/worktree getDualFS, every nil result reachable only after the 'gitdir' file was recognised is the error branch of a " +
+			"reviewed call (filepath.Rel, Chroot), because Open turns a nil result into 'open the main repository's directory'. Not decided: that git recognises the linked worktree; isolation over operation sequences.",
 		Assumptions: []string{},
 		Run:         runC33,
 	})
@@ -70,6 +73,7 @@ func bytesLitString(info *types.Info, e ast.Expr) string {
 
 func runC34(c *Ctx) {
 	p := c.P
+	PackagesStateFree(c, "codec-state-free", "plumbing/format/pktline", "plumbing/protocol/packp/sideband")
 	const r1 = "pktline-constants"
 	const pl = "plumbing/format/pktline"
 	const sb = "plumbing/protocol/packp/sideband"
@@ -181,6 +185,7 @@ func runC34(c *Ctx) {
 
 func runC12(c *Ctx) {
 	p := c.P
+	PackagesStateFree(c, "codec-state-free", "plumbing/format/index")
 	const r1 = "index-entry-layout"
 	for _, k := range []struct{ name, want string }{{"entryHeaderLength", "42"}, {"entryExtended", "16384"}, {"nameMask", "4095"}, {"intentToAddMask", "8192"}, {"skipWorkTreeMask", "16384"}} {
 		v, pos := constVal(p, idxShort, k.name)
@@ -468,13 +473,43 @@ func runC33(c *Ctx) {
 		}
 		ok := false
 		walkCalls(fi.Decl.Body, false, func(call *ast.CallExpr) {
-			if Callee(info, call) == mf.Obj && len(call.Args) == 1 && objOf(info, call.Args[0]) == want {
+			// the routed path is the parameter itself or a path built from it (TempFile: the directory joined with the prefix)
+			if Callee(info, call) == mf.Obj && len(call.Args) == 1 && want != nil && usesObj(info, call.Args[0], want) {
 				ok = true
 			}
 		})
 		c.Check(ok && want != nil, r2, fi.Name()+":routes-by", fi.Decl.Pos(), "the filesystem is chosen by the path being operated on")
+		if m.Name() == "TempFile" && len(c33RouteTable(p, mf, common).tmpPrefixes) > 0 {
+			// the table routes some temporary base names to the common directory: the file must be created where
+			// Rename and Remove will later look for it, so the prefix takes part in the routing of TempFile
+			var prefixParam types.Object
+			k := 0
+			for _, pv := range params {
+				if isStringish(pv.Type()) {
+					if k == 1 {
+						prefixParam = pv
+					}
+					k++
+				}
+			}
+			ok2 := false
+			walkCalls(fi.Decl.Body, false, func(call *ast.CallExpr) {
+				if Callee(info, call) == mf.Obj && len(call.Args) == 1 && prefixParam != nil && usesObj(info, call.Args[0], prefixParam) {
+					ok2 = true
+				}
+			})
+			c.Check(ok2, r2, fi.Name()+":routes-by-prefix", fi.Decl.Pos(), "temporary files are created in the filesystem their base name is routed to")
+		}
 	}
 	c.Floor(r2, 25)
+
+	const r3 = "publish-within-one-directory"
+	checkPublishWithinOneDirectory(c, r3, mf, common, rft)
+	c.Floor(r3, 3)
+
+	const r4 = "linked-worktree-not-downgraded"
+	checkLinkedNotDowngraded(c, r4)
+	c.Floor(r4, 4)
 }
 
 func runC31(c *Ctx) {
